@@ -12,7 +12,7 @@
 From Coq Require Import List Arith Bool NArith.
 From FFSM2 Require Import Model.TaskList Model.BitArray Model.BitStream Model.Plan Model.Ancestors Model.Machine
   Proofs.BitArrayProofs Proofs.TaskListProofs Proofs.TaskListRun Proofs.PlanProofs Proofs.MachineFrame Proofs.MachinePlan Proofs.MachineLife Proofs.GuardProofs Proofs.CycleProofs Proofs.PlanStep
-  Proofs.SerialProofs Proofs.LogProofs Proofs.MachineTop Model.Multi Generated.InitFacts Proofs.ConstructProofs Proofs.LifeMonitor Proofs.ActivationRounds Proofs.IndexSafety Proofs.FeatureProofs Model.Script Proofs.Contract Proofs.Histories.
+  Proofs.SerialProofs Proofs.LogProofs Proofs.MachineTop Model.Multi Generated.InitFacts Proofs.ConstructProofs Proofs.LifeMonitor Proofs.ActivationRounds Proofs.IndexSafety Proofs.FeatureProofs Model.Script Proofs.Contract Proofs.Histories Proofs.StatusBits.
 Import ListNotations.
 
 (* at most SUBSTITUTION_LIMIT guard rounds per processing step, whatever the guards do *)
@@ -206,4 +206,24 @@ Theorem C04_every_cycle_of_every_history :
             (c_plans cfg = false -> l_plan = []) /\ life_shape P cfg a (active P (co P s')) l_proc).
 Proof. exact (every_cycle_of_every_history). Qed.
 Print Assumptions C04_every_cycle_of_every_history.
+
+(* over whole histories: every update(), react(), immediateChangeTo() and immediateChangeWith() of every in-contract
+   history processes requests exactly once, from a Ready state reached by callbacks that applied no transition - so
+   every statement of this file made for process_request on a Ready state holds for every processing step of every
+   history *)
+Theorem C04_every_processing_step_of_every_history :
+  forall (P : Type) (cfg : config) (orc : oracle P),
+         wf_cfg cfg ->
+         wf_oracle P cfg orc ->
+         forall (lg : bool) (pre : list (api_op P)) (op : api_op P) (post : list (api_op P)),
+         ops_ok P cfg orc (construct P cfg orc lg) (pre ++ op :: post) ->
+         is_processing_op P op = true ->
+         let s := run P cfg orc lg pre in
+         let a := active P (co P s) in
+         exists s5 : mstate P,
+           Ready P cfg s5 a /\
+           run P cfg orc lg (pre ++ [op]) = process_request P cfg orc s5 /\
+           (exists l : list (event P), tr P s5 = l ++ tr P s /\ MachineFrame.quiet P cfg a l).
+Proof. exact (every_processing_step_of_every_history). Qed.
+Print Assumptions C04_every_processing_step_of_every_history.
 
